@@ -211,7 +211,9 @@ StepRules(st, self, types, cache) ==
            => /\ Has(TrOf(st.tr, "resume"), LAMBDA t : t.msg = PauseMsg(id, FALSE))
               /\ (Dest(IF amInit THEN "ResumeInitiator" ELSE "ResumeResponder", pre.status) \notin {"INV","Completing"} => (IF amInit THEN ~post.ip /\ post.rp = pre.rp ELSE ~post.rp /\ post.ip = pre.ip))
         THEN {} ELSE {"C11.localResume"})
-  \cup (IF ((isReqStim \/ isRespStim) /\ m.kind = "Update" /\ ~m.paused /\ has /\ ~term /\ T.hasPost /\ T.postView.selfPaused /\ post.status \notin Cleanup \cup Terminal)
+  \cup (IF ((isReqStim \/ isRespStim) /\ ~m.paused /\ has /\ ~term /\ T.hasPost /\ T.postView.selfPaused /\ post.status \notin Cleanup \cup Terminal
+             \* the counterparty says "not paused": an Update either way, or (to the initiator) an accepting answer that is not the final Complete
+             /\ (m.kind = "Update" \/ (isRespStim /\ amInit /\ m.kind \in {"New","Restart","VoucherResult"} /\ m.accepted)))
            => (IF netPath THEN Len(TrOf(st.tr, "pause")) >= 1 ELSE st.ret = "pause")
         THEN {} ELSE {"C11.stayPaused"})
   \cup (IF ((isReqStim \/ isRespStim) /\ m.kind = "Update" /\ has /\ ~term)
